@@ -11,15 +11,12 @@ SHANNON = "pysmt.solvers.qelim.ShannonQuantifierEliminator"
 SELFSUB = "pysmt.solvers.qelim.SelfSubstitutionQuantifierEliminator"
 
 EXPLANATION = (
-    "Static analysis of pysmt/rewritings.py and pysmt/solvers/qelim.py: the Boolean constructs "
-    "NNFizer expands in positive position, those it expands under a negation and the cases of "
-    "walk_not are the same set (R1, contradiction rule); for each connective and polarity the "
-    "rewriter interpreted on ~150 operator skeletons over opaque leaves returns a term that is "
-    "equivalent by complete truth table (bound Boolean variables enumerated) and of the advertised "
-    "shape - nnf, aig, prenex, both quantifier eliminations, both partitions, propagate_toplevel (R2); AIG handlers build "
-    "only And/Not (R3); prenex building blocks (R4); partitioning descends only through And/Or (R5); "
-    "Shannon expansion maps forall to And and exists to Or over all assignments of exactly the bound "
-    "variables, self-substitution uses FALSE for forall and TRUE for exists (R6).")
+    "Abstract interpretation of pysmt/rewritings.py and pysmt/solvers/qelim.py: each rewriter - nnf, aig, "
+    "prenex, both Boolean quantifier eliminations, both partitions, propagate_toplevel - is interpreted "
+    "from source on ~150 operator skeletons over opaque leaves (every connective, every connective under "
+    "a negation and nested once, quantifiers in every position, shadowing binders); the returned term is "
+    "equivalent to the input by complete truth table (bound Boolean variables enumerated) and has the "
+    "advertised shape (R2).")
 NOT_DECIDED = ["TimesDistributor; propagate_toplevel beyond the skeletons of R2 (Int values in a small domain)",
                "alpha-renaming correctness of prenex beyond the reserved-set discipline"]
 
@@ -50,221 +47,6 @@ def _chain(iff):
 def run(ctx):
     repo = get_repo()
     ctx.analysed["modules"] = ["pysmt/rewritings.py", "pysmt/solvers/qelim.py"]
-
-    if ctx.want("R1"):
-        rs = ctx.rule("R1", "NNF: constructs expanded positively, under negation, and in walk_not agree")
-        cls, gc = repo.method(NNF, "_get_children")
-        cls2, wn = repo.method(NNF, "walk_not")
-        top = [s for s in gc.body if isinstance(s, ast.If)]
-        if not top:
-            ctx.error("R1", "NNFizer._get_children has no top-level case analysis")
-        else:
-            chain, _ = _chain(top[0])
-            pos, neg = set(), set()
-            neg_var = None
-            for test, body in chain:
-                p = _preds(test, "formula")
-                if p == ["not"]:
-                    # inner chain on the negated sub-formula
-                    for s in body:
-                        if isinstance(s, ast.Assign) and norm(s.value) == "formula.arg(0)":
-                            neg_var = s.targets[0].id
-                    inner = [s for s in body if isinstance(s, ast.If)]
-                    if inner and neg_var:
-                        ch2, _ = _chain(inner[0])
-                        for t2, _b in ch2:
-                            neg |= set(_preds(t2, neg_var))
-                else:
-                    pos |= set(p)
-            wnv = None
-            for s in wn.body:
-                if isinstance(s, ast.Assign) and norm(s.value) == "formula.arg(0)":
-                    wnv = s.targets[0].id
-            wcases = set()
-            for n in ast.walk(wn):
-                if isinstance(n, ast.If) and wnv:
-                    wcases |= set(_preds(n.test, wnv))
-
-            def canon(s):
-                s = set(s)
-                if "forall" in s or "exists" in s:
-                    s -= {"forall", "exists"}
-                    s.add("quantifier")
-                return s & set(BOOL_CONSTRUCTS)
-            P, N, W = canon(pos), canon(neg), canon(wcases)
-            ctx.analysed["nnf_positive"] = sorted(P)
-            ctx.analysed["nnf_negated"] = sorted(N)
-            ctx.analysed["nnf_walk_not"] = sorted(W)
-            if not P or not N:
-                rs.unrec("case analysis of _get_children not recognised (pos=%s neg=%s)" % (sorted(P), sorted(N)))
-            else:
-                for c in sorted(P | (N - {"not"})):
-                    inP, inN, inW = c in P, c in N, c in W
-                    if inP and inN and inW:
-                        rs.ok({"construct": c, "positive": True, "negated": True, "walk_not": True})
-                    elif inP and not inN:
-                        ctx.finding(rs, "%s._get_children|not-expanded-under-negation|%s" % (NNF, c),
-                                    "Boolean %s is expanded in positive position but not under a negation: "
-                                    "Not(%s(...)) keeps the negation on a non-atom, the result is not in NNF"
-                                    % (c, c.capitalize()), method_loc(repo, cls, gc))
-                    elif inN and not inW:
-                        ctx.finding(rs, "%s.walk_not|case-missing|%s" % (NNF, c),
-                                    "_get_children pre-negates the children of a negated %s but walk_not has no case "
-                                    "rebuilding it" % c, method_loc(repo, cls2, wn))
-                    elif inN and not inP:
-                        ctx.finding(rs, "%s._get_children|not-expanded-positively|%s" % (NNF, c),
-                                    "%s is expanded under negation but not in positive position" % c,
-                                    method_loc(repo, cls, gc))
-        ctx.floor(rs, 5)
-
-    if ctx.want("R3"):
-        rs = ctx.rule("R3", "AIG handlers construct only And / Not (+ quantifiers, atoms)")
-        allowed = {"And", "Not", "Exists", "ForAll"}
-        for h, ops_ in handler_funcs(AIG):
-            if h.cls != AIG:
-                continue
-            used = set(attr_tail(c) for c in calls_in(h.func) if isinstance(c.func, ast.Attribute) and
-                       norm(c.func.value) in ("self.mgr", "mgr"))
-            extra = used - allowed
-            if extra:
-                ctx.finding(rs, "%s.%s|non-aig-connective|%s" % (AIG, h.name, ",".join(sorted(extra))),
-                            "AIG handler %s builds %s: the result is not an and-inverter graph" % (h.name, sorted(extra)),
-                            method_loc(repo, AIG, h.func))
-            else:
-                rs.ok({"handler": h.name, "constructs": sorted(used)})
-        ctx.floor(rs, 6)
-
-    if ctx.want("R4"):
-        rs = ctx.rule("R4", "prenex building blocks")
-        cls, f = repo.method(PRENEX, "_invert_quantifier")
-        txt = norm(f)
-        if "if Q == self.mgr.Exists:\n        return self.mgr.ForAll\n    return self.mgr.Exists" in txt:
-            rs.ok({"_invert_quantifier": "Exists <-> ForAll"})
-        else:
-            iffs = [n for n in ast.walk(f) if isinstance(n, ast.If)]
-            good = False
-            if len(iffs) == 1 and isinstance(iffs[0].test, ast.Compare):
-                a = attr_tail(iffs[0].test.comparators[0])
-                r1 = [attr_tail(s.value) for s in iffs[0].body if isinstance(s, ast.Return)]
-                r2 = [attr_tail(s.value) for s in f.body if isinstance(s, ast.Return)] + \
-                     [attr_tail(s.value) for s in iffs[0].orelse if isinstance(s, ast.Return)]
-                if {a} | set(r2) == {a} and False:
-                    pass
-                if r1 and r2 and {a, r1[0]} == {"Exists", "ForAll"} and r2[0] == a:
-                    good = True
-                elif r1 and r2 and r1[0] == a:
-                    ctx.finding(rs, "%s._invert_quantifier|identity" % PRENEX,
-                                "_invert_quantifier maps %s to itself: negation no longer dualises the prefix" % a,
-                                method_loc(repo, cls, f))
-                    good = None
-            if good:
-                rs.ok({"_invert_quantifier": "Exists <-> ForAll"})
-            elif good is False:
-                rs.unrec("_invert_quantifier shape")
-        cls, f = repo.method(PRENEX, "walk_not")
-        if "self._invert_quantifier(Q)" in norm(f) and "self.mgr.Not(matrix)" in norm(f):
-            rs.ok({"walk_not": "inverts every quantifier of the prefix and negates the matrix"})
-        else:
-            rs.unrec("PrenexNormalizer.walk_not shape")
-        cls, f = repo.method(PRENEX, "walk_conj_disj")
-        txt = norm(f)
-        conds = ["reserved = formula.get_free_variables()" in txt, "needs_rename = q_vars & reserved" in txt,
-                 "reserved |= new_q_vars" in txt]
-        if all(conds):
-            rs.ok({"walk_conj_disj": "renames q_vars & reserved; reserved grows with every emitted quantifier"})
-        else:
-            rs.unrec("walk_conj_disj reserved-set discipline %s" % conds)
-        cls, f = repo.method(PRENEX, "walk_quantifier")
-        if "formula.is_exists()" in norm(f) and "self.mgr.Exists, nq" in norm(f) and "self.mgr.ForAll, nq" in norm(f):
-            par = parents(f)
-            okq = True
-            for n in ast.walk(f):
-                if isinstance(n, ast.Return) and "self.mgr.Exists, nq" in norm(n):
-                    q = par.get(n)
-                    okq = okq and isinstance(q, ast.If) and n in q.body and norm(q.test) == "formula.is_exists()"
-            if okq:
-                rs.ok({"walk_quantifier": "appends its own quantifier kind"})
-            else:
-                ctx.finding(rs, "%s.walk_quantifier|kind" % PRENEX, "an existential is emitted for a universal node or vice versa",
-                            method_loc(repo, cls, f))
-        else:
-            rs.unrec("walk_quantifier shape")
-        cls, f = repo.method(PRENEX, "normalize")
-        if "for (Q, qvars) in quantifiers:\n        res = Q(qvars, res)" in norm(f):
-            rs.ok({"normalize": "wraps the matrix with the prefix, innermost first"})
-        else:
-            rs.unrec("normalize shape")
-        ctx.floor(rs, 3)
-
-    if ctx.want("R5"):
-        rs = ctx.rule("R5", "partitioning descends only through And (resp. Or) and never yields one")
-        for fn, pred in (("conjunctive_partition", "is_and"), ("disjunctive_partition", "is_or")):
-            m, f = repo.function("pysmt.rewritings." + fn)
-            iffs = [n for n in ast.walk(f) if isinstance(n, ast.If) and isinstance(n.test, ast.Call)
-                    and n.test.func.attr.startswith("is_") and norm(n.test.func.value) == "cur"]
-            if len(iffs) != 1:
-                rs.unrec("%s: case split not recognised" % fn)
-                continue
-            i = iffs[0]
-            desc_body = any("cur.args()" in norm(s) for s in i.body)
-            yields_else = any(isinstance(x, ast.Yield) for s in i.orelse for x in ast.walk(s))
-            yields_body = any(isinstance(x, ast.Yield) for s in i.body for x in ast.walk(s))
-            if i.test.func.attr == pred and desc_body and yields_else and not yields_body:
-                rs.ok({"function": fn, "descends_through": pred, "yields": "everything else"})
-            elif i.test.func.attr != pred:
-                ctx.finding(rs, "pysmt.rewritings.%s|descends-through|%s" % (fn, i.test.func.attr),
-                            "%s descends through %s instead of %s: the parts no longer recombine to the input"
-                            % (fn, i.test.func.attr, pred), repo.loc(m, i))
-            else:
-                ctx.finding(rs, "pysmt.rewritings.%s|shape" % fn,
-                            "%s yields a node it also descends through, or drops nodes" % fn, repo.loc(m, i))
-        ctx.floor(rs, 2)
-
-    if ctx.want("R6"):
-        rs = ctx.rule("R6", "Boolean QE: forall->And / exists->Or over all assignments; self-substitution tokens")
-        for w, ctor in (("walk_forall", "And"), ("walk_exists", "Or")):
-            cls, f = repo.method(SHANNON, w)
-            rets = [n for n in ast.walk(f) if isinstance(n, ast.Return)]
-            if len(rets) == 1 and isinstance(rets[0].value, ast.Call) and attr_tail(rets[0].value) in ("And", "Or") \
-                    and len(rets[0].value.args) == 1 and "_expand(formula, args)" in norm(rets[0].value.args[0]):
-                if attr_tail(rets[0].value) == ctor:
-                    rs.ok({"shannon": w, "combines_with": ctor})
-                else:
-                    ctx.finding(rs, "%s.%s|connective" % (SHANNON, w),
-                                "%s combines the expansion with %s instead of %s" % (w, attr_tail(rets[0].value), ctor),
-                                method_loc(repo, cls, rets[0]))
-            else:
-                rs.unrec("Shannon %s shape" % w)
-        cls, f = repo.method(SHANNON, "_expand")
-        txt = norm(f)
-        if "qvars = formula.quantifier_vars()" in txt and "all_assignments(qvars, self.env)" in txt and \
-                "res.append(f.substitute(subs))" in txt and "f = args[0]" in txt:
-            rs.ok({"_expand": "one instance of the rewritten body per assignment of exactly the bound variables"})
-        else:
-            rs.unrec("_expand shape")
-        m, f = repo.function("pysmt.utils.all_assignments")
-        if "powerset(bool_variables)" in norm(f) and "mgr.Bool(v in set_)" in norm(f) and "for v in bool_variables" in norm(f):
-            rs.ok({"all_assignments": "every subset of the variables, each variable assigned"})
-        else:
-            rs.unrec("all_assignments shape")
-        for w, tok in (("walk_forall", "FALSE"), ("walk_exists", "TRUE")):
-            cls, f = repo.method(SELFSUB, w)
-            toks = [attr_tail(n.value) for n in ast.walk(f) if isinstance(n, ast.Assign) and norm(n.targets[0]) == "token"]
-            if toks == [tok]:
-                rs.ok({"self-substitution": w, "token": tok})
-            elif toks and toks[0] in ("TRUE", "FALSE"):
-                ctx.finding(rs, "%s.%s|token" % (SELFSUB, w),
-                            "%s substitutes %s; f[v := f[v := %s]] is equivalent to the quantified formula only with %s"
-                            % (w, toks[0], tok, tok), method_loc(repo, cls, f))
-            else:
-                rs.unrec("self-substitution %s token" % w)
-        cls, f = repo.method(SELFSUB, "self_substitute")
-        txt = norm(f)
-        if "inner_sub = formula.substitute({v: token})" in txt and "formula = formula.substitute({v: inner_sub})" in txt:
-            rs.ok({"self_substitute": "f[v := f[v := token]] per bound variable"})
-        else:
-            rs.unrec("self_substitute shape")
-        ctx.floor(rs, 6)
 
     from . import c10_deep
     c10_deep.run(ctx)
